@@ -1,5 +1,7 @@
 package hermes
 
+import "strings"
+
 // C02: one call of the transport routine nmove from an arbitrary state that
 // satisfies the SOIL / NSTATE / FLUX conditions (FLUX = post-conditions of
 // Water proved under C01).
@@ -141,6 +143,8 @@ func zzC02Nmove(n, wdtDen, first, signs, global int) {
 	// (B) dispersion is a difference of interface fluxes (sums to zero);
 	// (C) convection sums to what leaves through the bottom and the drain.
 	sumDisp, sumKonv := 0.0, 0.0
+	exceeded := false
+	stabThreshold := vFloat("c1stab") // the configured threshold (a negative number; default -1.5)
 	for i := 0; i < n; i++ {
 		m := c0[i] + g.DN[i]*wdt/2
 		if subd == 1 {
@@ -150,6 +154,9 @@ func zzC02Nmove(n, wdtDen, first, signs, global int) {
 			m = 0
 		}
 		ck := m + (l.DISP[i]-l.KONV[i])*g.DZ.Num*100
+		if ck < stabThreshold {
+			exceeded = true
+		}
 		if ck < 0 {
 			ck = 0
 		}
@@ -162,6 +169,15 @@ func zzC02Nmove(n, wdtDen, first, signs, global int) {
 		sumKonv += l.KONV[i]
 	}
 	vAssert("C02.dispersion_telescopes", vNear(sumDisp*1000, 0, eps))
+	// the non-negativity clamp flags the run exactly when it cuts off more than the configured threshold (default 1.5 kg N/ha)
+	if n <= 3 {
+		vAssert("C02.instability_flag_iff_clamp_exceeds_threshold", (g.C1NotStable != "") == exceeded && (g.C1NotStable != "") == !stable)
+	}
+	if exceeded {
+		vCover("C02.cover_instability_flagged")
+	}
+	// the flag text is written into one column of the daily output (C05): it must not contain a field separator
+	vAssert("C02.instability_text_fits_one_output_field", !strings.Contains(g.C1NotStable, ",") && !strings.Contains(g.C1NotStable, ";") && !strings.Contains(g.C1NotStable, "\n"))
 	if signs >= 0 || n <= 2 {
 		vAssert("C02.convection_balance", vNear(sumKonv*1000, (g.OUTSUM-outsum0)+(g.DRAINLOSS-drain0), eps))
 	}
